@@ -75,18 +75,18 @@ def ofLeaf (s : App) (sg : Signer) : Msg → List TrigId
 
 mutual
 /-- triggers met while executing a message tree (state threaded like `handle`) -/
-def ofMsg (s : App) (sg : Signer) : Msg → List TrigId × Option App
-  | .exec ms => ofList s sg ms
+def ofMsg (lf : LimitFacts) (s : App) (sg : Signer) : Msg → List TrigId × Option App
+  | .exec ms => ofList lf s sg ms
   | m =>
     let t := ofLeaf s sg m
-    match App.handle s sg m with
+    match App.handle lf s sg m with
     | .ok s' => (t, some s')
     | _ => (t, none)
-def ofList (s : App) (sg : Signer) : List Msg → List TrigId × Option App
+def ofList (lf : LimitFacts) (s : App) (sg : Signer) : List Msg → List TrigId × Option App
   | [] => ([], some s)
   | m :: ms =>
-    match ofMsg s sg m with
-    | (t, some s') => let r := ofList s' sg ms; (t ++ r.1, r.2)
+    match ofMsg lf s sg m with
+    | (t, some s') => let r := ofList lf s' sg ms; (t ++ r.1, r.2)
     | (t, none) => (t, none)
 end
 
